@@ -14,22 +14,7 @@ EXTENDS Interp, Json
 VARIABLES plan, pos
 tvars == <<objs, glob, shtol, dicts, read, hist, plan, pos>>
 
-C(o, c, k)   == [op |-> "Construct", obj |-> o, cls |-> c, cfg |-> k, dict |-> o]
-K(o, v, t)   == [op |-> "Call", obj |-> o, variant |-> v, t |-> t]
-S(o)         == [op |-> "Solve", obj |-> o]
-T(o, x)      == [op |-> "SetTol", obj |-> o, tol |-> x]
-Qy(o, q)     == [op |-> "Query", obj |-> o, q |-> q]
-
-Plans ==
-     {<<C(1, c, k), K(1, "full", 1), K(1, "full", 2), K(1, "perm", 1), K(1, "full", 1), K(1, "inner", 1)>> : c \in Classes, k \in Cfgs}
-\cup {<<C(1, c, 1), C(2, c, 2), K(1, "full", 1), K(2, "full", 1), K(1, "full", 1), K(2, "subset", 2), K(1, "dup", 2)>> : c \in Classes}
-\cup {<<C(1, c, 2), K(1, "full", 1), C(2, c, 1), K(2, "full", 1), K(1, "full", 1)>> : c \in Classes}
-\cup UNION {{<<C(1, c, 1), C(2, d, 1), K(1, "full", 1), K(2, "full", 1), K(1, "full", 1)>> :
-                  d \in {x \in Classes : x # c /\ Module[x] = Module[c]}} : c \in Classes}
-\cup {<<C(1, c, 1), T(1, 2), S(1), C(2, c, 2), T(2, 1), S(2), K(1, "full", 1), K(2, "full", 1), S(1), K(1, "full", 2)>> :
-         c \in {x \in Classes : Kind[x] = "bbox"}}
-
-QueryPlans == {<<C(1, c, k), Qy(1, 1), K(1, "full", 1), Qy(1, 2), K(1, "full", 1)>> : c \in Classes, k \in Cfgs}
+INSTANCE InterpPlans            \* C, K, S, T, Qy, Plans, QueryPlans
 
 Apply(e) ==
   CASE e.op = "Construct" -> Construct(e.obj, e.cls, e.cfg, e.dict)
